@@ -248,6 +248,8 @@ pub fn deadline_transition(from: u8, to: u8, caller_site: u16) -> bool {
         site::RECV_POLL_RETRY => matches!((from, to), (4, 2) | (2, 2)),
         // The receive side found the claimed frame now belongs to another request: hand it back.
         site::RX_AFTER_LOOKUP => matches!((from, to), (5, 4) | (8, 0)),
+        // ... or that the received data does not fit into the claimed frame: hand it back as well.
+        site::RX_AFTER_CLAIM => matches!((from, to), (5, 4) | (8, 0)),
         site::RESET => to == 0,
         _ => false,
     }
